@@ -1058,7 +1058,9 @@ func runClientScenario(seed int64) *scenario {
 	if r.Intn(12) == 0 {
 		user = g.pick("u@", "u:p@", ":@")
 	}
-	path := g.pick("", "/", "/chat", "/a/b?x=1&y=2", "/p%20q?z=%2F", "?q")
+	path := g.pick("", "/", "/chat", "/a/b?x=1&y=2", "/p%20q?z=%2F", "?q",
+		// escaped forms that differ from the default encoding of the decoded path; a bare '?'
+		"/rooms/a%2Fb", "/x%3By?k=%3B", "/ws?", "/a%21b/%7Euser", "/caf%C3%A9%2f?")
 	if scheme == "wss" {
 		// TLS is exercised by the dial-path matrix; here only the early checks matter
 		scheme = "ws"
